@@ -1257,7 +1257,7 @@ func destinations(call *ssa.Call, filter func(ssa.Instruction) bool) map[string]
 				}
 				switch a := x.Addr.(type) {
 				case *ssa.IndexAddr:
-					out[fmt.Sprintf("elem:%p", a.X)] = true
+					out[fmt.Sprintf("elem:%p", capturedLoad(a.X))] = true // (the slice itself, also when it lives in a variable a closure captures)
 				case *ssa.FieldAddr:
 					out[fmt.Sprintf("field:%p:%d", a.X, a.Field)] = true
 				case *ssa.Alloc:
